@@ -491,6 +491,28 @@ def gen_twin_workspace(rng):
     return out
 
 
+def gen_returned_local_workspace(rng):
+    """a local RETURNED by its file's main chunk (find-references then searches every file) and unrelated same-named
+    locals declared at the same line/column in other files"""
+    n = rng.choice(LOCALS)
+    call = rng.choice(UNDEF)
+    ind = " " * rng.choice([0, 0, 2])
+    out = []
+    for fi, fn in enumerate(["a.lua", "b.lua", "sub/c.lua"][:rng.choice([2, 3])]):
+        lines = [ind + "local %s = %d" % (n, fi + 1), "%s(%s)" % (call, n)]
+        if rng.random() < 0.5:
+            lines.append("%s = %s + 1" % (n, n))
+        if fi == 0:
+            lines.append("return %s" % n)
+        text = "\n".join(lines) + "\n"
+        pos = []
+        for li, ln in enumerate(text.split("\n")):
+            for m in IDENT_RE.finditer(ln):
+                pos.append((m.group(0), li, m.start()))
+        out.append((fn, text, ident_positions(pos)))
+    return out
+
+
 def gen_many_files_workspace(rng, n=None):
     """more files than the references worker pool has workers (runtime.NumCPU()+2): some worker handles several files;
     a global defined in one file and used once per file, each use on a different line"""
